@@ -46,7 +46,7 @@ def _install(fs):
 
     def copyfile(a, b, **k):
         if fs.ismem(a) or fs.ismem(b):
-            return fs.copyfile(a, b)
+            return fs.copyfile(a, b, follow_symlinks=k.get("follow_symlinks", True))
         return real(a, b, **k)
 
     copyfile._real = real
